@@ -74,7 +74,7 @@ func newRecEvaluator() *recEvaluator {
 	return &recEvaluator{ev: ev, log: log}
 }
 
-// reusedPod: every other evaluation goes through this one object (content replaced each time, as a caller decoding into a
+// reusedPod: every other run of 64 evaluations goes through this one object (content replaced each time, as a caller decoding into a
 // reused variable does): where a pod lives in memory says nothing about what it contains
 var reusedPod corev1.Pod
 var evalCount int
@@ -82,7 +82,7 @@ var evalCount int
 func (e *recEvaluator) Eval(lv api.LevelVersion, p *corev1.Pod) ([]RevResult, []policy.CheckResult) {
 	*e.log = (*e.log)[:0]
 	evalCount++
-	if evalCount%2 == 0 {
+	if (evalCount/64)%2 == 0 { // runs of 64 consecutive evaluations (which span several pods) through the one object, then 64 on the pods themselves
 		reusedPod = *p.DeepCopy()
 		p = &reusedPod
 	}
